@@ -55,6 +55,12 @@ func (c *c02) world() *c02world {
 	weightsFor := func() []interfaces.CommitteeMember {
 		var cm []interfaces.CommitteeMember
 		shape := c.rng.Intn(5)
+		if c.rng.Intn(12) == 0 {
+			shape = 5
+		}
+		if c.rng.Intn(40) == 0 {
+			return nil // the consumer reports an empty committee for this height
+		}
 		for i := 0; i < n; i++ {
 			var w uint64
 			switch shape {
@@ -64,6 +70,8 @@ func (c *c02) world() *c02world {
 				w = uint64(1 + c.rng.Intn(6))
 			case 2:
 				w = uint64(c.rng.Intn(3)) // zero-weight members
+			case 5:
+				w = 0 // a committee without any weight
 			case 3:
 				w = 1<<53 + uint64(c.rng.Intn(5))
 			default:
@@ -267,6 +275,14 @@ func CheckC02(run *harness.Run) int {
 		wd := c.world()
 		h := uint64(2 + c.rng.Intn(3))
 		cm := ref.NewCommittee(wd.comm[h])
+		if cm.N() == 0 || ref.NewCommittee(wd.comm[h-1]).N() == 0 {
+			// empty committee: only the "nobody signed" certificate makes sense
+			blk := &spi.Blk{H: h, Body: "b"}
+			s := &proofSpec{Type: protocol.LEAN_HELIX_COMMIT, Inst: inst, H: h, Hash: spi.HashOf(blk)}
+			wd.desc = fmt.Sprintf("h=%d members=%v", h, wd.comm[h])
+			c.judge(wd, "empty committee, no signers", blk, c.build(s, nil), &spi.Blk{H: h - 1, Body: "prev"}, nil, "empty-committee")
+			continue
+		}
 		wd.desc = fmt.Sprintf("h=%d members=%v; h-1 members=%v", h, wd.comm[h], wd.comm[h-1])
 		blk := &spi.Blk{H: h, Body: fmt.Sprintf("block-%d", wi)}
 		prevBlk := &spi.Blk{H: h - 1, Body: "prev"}
